@@ -96,6 +96,9 @@ pub struct OpWorld {
     /// the command receives an equivalent spelling (C18: path aliases through `.`, `//`, `dir/..`)
     /// (canonical argument, spelling, which occurrence of that canonical value among the arguments)
     pub arg_rewrite: Vec<(String, String, usize)>,
+    /// Some(exit): every operation is its own top-level run (`run_script`) on the context returned by the
+    /// previous one - what an embedder or the REPL does; with `exit` the run ends through the exit command
+    pub run_mode: Option<bool>,
     pub ctx: Context,
     pub env: Env,
     pub out: SimWriter,
@@ -110,11 +113,22 @@ impl OpWorld {
         let out = SimWriter::new("out", vec![]);
         let err = SimWriter::new("err", vec![]);
         let env = Env::new(Some(Box::new(out.clone())), Some(Box::new(err.clone())), None);
-        OpWorld { arg_rewrite: vec![], ctx, env, out, err, instructions: vec![] }
+        OpWorld { arg_rewrite: vec![], run_mode: None, ctx, env, out, err, instructions: vec![] }
+    }
+    /// a second world continuing from a clone of this one's context (what an embedder does when it keeps a
+    /// returned Context and runs again on a copy): the state map is cloned shallowly, as `Context::clone` does
+    pub fn fork(&self) -> OpWorld {
+        let out = SimWriter::new("out", vec![]);
+        let err = SimWriter::new("err", vec![]);
+        let env = Env::new(Some(Box::new(out.clone())), Some(Box::new(err.clone())), None);
+        OpWorld { arg_rewrite: vec![], run_mode: self.run_mode, ctx: self.ctx.clone(), env, out, err, instructions: vec![] }
     }
     /// run one command with the arguments given VERBATIM (they must be free of `$ % \\`, which the
     /// runner would interpret; the pools of the history properties are)
     pub fn run(&mut self, cmd: &str, args: &[String]) -> Out {
+        if let Some(exit) = self.run_mode {
+            return self.run_as_script(cmd, &args_vec(args), exit);
+        }
         let mut si = ScriptInstruction::new();
         si.command = Some(cmd.to_string());
         let mut seen: Vec<(String, usize)> = vec![];
@@ -154,6 +168,38 @@ impl OpWorld {
             CommandResult::Exit(_) => Out::Other("Exit".to_string()),
         }
     }
+    /// one operation as one top-level run on the reused context; the output is read from the variable `out`
+    pub fn run_as_script(&mut self, cmd: &str, args: &[String], exit: bool) -> Out {
+        fn q(v: &str) -> String {
+            if v.is_empty() || v.contains(' ') { format!("\"{}\"", v) } else { v.to_string() }
+        }
+        let mut text = format!("out = {}", cmd);
+        for a in args {
+            text.push(' ');
+            text.push_str(&q(a));
+        }
+        text.push('\n');
+        if exit {
+            text.push_str("exit\n");
+        }
+        self.run_text(&text)
+    }
+    /// run a script text as one top-level run on the reused context
+    pub fn run_text(&mut self, text: &str) -> Out {
+        let ctx = std::mem::replace(&mut self.ctx, Context::new());
+        let env = Env::new(Some(Box::new(self.out.clone())), Some(Box::new(self.err.clone())), None);
+        match runner::run_script(text, ctx, Some(env)) {
+            Ok(mut c) => {
+                let out = match c.variables.remove("out") {
+                    Some(v) => Out::Val(v),
+                    None => Out::None,
+                };
+                self.ctx = c;
+                out
+            }
+            Err(e) => Out::Crash(format!("run failed, context lost: {}", e)),
+        }
+    }
     /// run, log as an Op event, compare with the wanted class; returns the output
     pub fn op(&mut self, cmd: &str, args: &[String], want: &Want, shown_args: &[String]) -> Out {
         let got = self.run(cmd, args);
@@ -179,6 +225,10 @@ impl OpWorld {
             _ => None,
         }
     }
+}
+
+fn args_vec(a: &[String]) -> Vec<String> {
+    a.to_vec()
 }
 
 pub fn s(x: &str) -> String {
